@@ -186,6 +186,15 @@ def run(ctx):
            sc.obj.kwargs.get('initial_value') == 0xFFFF, sc.loc if sc else None, 'transmit scrambler starts from 0xFFFF')
     ctx.ob('C31.layer', 'USB3PhysicalLayer.descrambler.init', ds is not None and ds.obj.clsname == 'Descrambler' and
            ds.obj.kwargs.get('initial_value', 0xFFFF) == 0xFFFF, ds.loc if ds else None, 'descrambler starts from 0xFFFF')
+    # the descrambler works in the word frame the COM aligner established (keystream byte 4n+i belongs to lane i of word n
+    # after the COM): it is fed by the word aligner, and whatever re-aligns packets by symbols comes after it
+    wa = [x for x in pl.submodules if x.obj.clsname == 'RxWordAligner']
+    for f_ in ('payload', 'ctrl', 'valid'):
+        d = pl.drivers('descrambler.sink.' + f_, exact=True)
+        src = d[0].rhs.canon() if len(d) == 1 and isinstance(d[0].rhs, E) and not d[0].guard else None
+        ctx.ob('C31.layer', 'USB3PhysicalLayer.descrambler.sink.' + f_, len(wa) == 1 and src == '%s.source.%s' % (wa[0].name, f_),
+               d[0].loc if d else None, 'the descrambler must be fed by the word aligner (RxWordAligner) directly, before any '
+               'symbol-wise re-alignment: descrambler.sink.%s <= %s' % (f_, src))
     for lhs, rhs in (('scrambler.hold', 'tx_ctc.sending_skip'), ('scrambler.enable', 'self.enable_scrambling'),
                      ('descrambler.enable', 'self.enable_scrambling'), ('tx_ctc.sink.payload', 'scrambler.source.payload'),
                      ('tx_ctc.sink.ctrl', 'scrambler.source.ctrl'), ('scrambler.source.ready', 'tx_ctc.sink.ready')):
